@@ -248,6 +248,19 @@ pub fn record(args: &Args) {
         cfr::verif::reset();
         events += record_profile(&mut out, &game, &strat, "solved");
         runs += 1;
+        // ... and from the several-thread code path (its own conversion of the accumulators into a profile)
+        cfr::verif::set_draw_seed(Some(seed.wrapping_add(id)));
+        match game.solve(method, iters, 0.0, 2, None) {
+            Ok((strat2, _)) => {
+                cfr::verif::reset();
+                events += record_profile(&mut out, &game, &strat2, "solved-two-threads");
+                runs += 1;
+            }
+            Err(e) => {
+                cfr::verif::reset();
+                failed.push(json!({"what": "solve with two threads failed on a valid game", "error": format!("{e:?}"), "tree": t}));
+            }
+        }
         if samples.len() < 2 {
             samples.push(json!({"tree": t, "method": format!("{method:?}"), "iters": iters}));
         }
